@@ -144,6 +144,33 @@ theorem refused_forever (s : St) (p : Nat) (b : Bytes) (e : Env)
   refine ⟨?_, this.2⟩
   rw [this.1]; simp [St.isAuthenticated, h]
 
+/-! ## key re-exchange before authentication -/
+
+private theorem classify_kex : ∀ g : Bool, ∀ p ∈ [7, 20, 21], classify g p = Class.transport ∧ p ≤ HIGHEST_USERAUTH_MESSAGE_ID := by
+  decide
+
+/-- **Key re-exchange.** The messages of a key re-exchange (KEXINIT, NEWKEYS, EXT_INFO: the kex-layer types served by
+the transport table) never touch the authentication state: the pinned username, the failure counter and the
+authenticated flag are those of the CONNECTION, before and after - whatever the kex layer itself does (it may end
+the connection). -/
+theorem rekey_keeps_pin_and_counter (s : St) (p : Nat) (hp : p ∈ [7, 20, 21]) (b : Bytes) (e : Env) :
+    (step sc sid s p b e).1.authUser = s.authUser ∧ (step sc sid s p b e).1.failCount = s.failCount ∧
+    (step sc sid s p b e).1.authenticated = s.authenticated ∧ (step sc sid s p b e).2.cbs = [] := by
+  by_cases ha : s.active = true
+  · rw [step_active sc sid s p b e ha]
+    have hc := fun g => classify_kex g p hp
+    unfold decideAct
+    simp only [(hc s.gssSub).1]
+    split
+    · split
+      · simp [perform]
+      · split
+        · simp [perform]
+        · simp [dispatch, (hc s.gssSub).1, (hc s.gssSub).2, perform]
+    · simp [dispatch, (hc s.gssSub).1, (hc s.gssSub).2, perform]
+  · simp only [Bool.not_eq_true] at ha
+    rw [step_inactive sc sid s p b e ha]; simp
+
 /-! ## one username per connection (all histories) -/
 
 /-- all callbacks consulted along a history -/
